@@ -27,7 +27,7 @@ type profile struct {
 }
 
 var allStyles = []srt.Style{{}, {B: true}, {I: true}, {U: true}, {Color: "#ff0000"}, {B: true, I: true}, {B: true, I: true, U: true, Color: "red"}}
-var allTexts = []string{"x", "a b", " lead", "trail ", "7", "&", "<", "a<b", "&amp;", "a\u00a0b", "\u00e9", "e\u0301", "\U0001F600", "a\tb", "a>b", "\"q\"", "1 > 0 -> ok", "\u00a0edge\u00a0"}
+var allTexts = []string{"x", "a b", " lead", "trail ", "7", "&", "<", "a<b", "&amp;", "a\u00a0b", "\u00e9", "e\u0301", "\U0001F600", "a\tb", "a>b", "\"q\"", "1 > 0 -> ok", "\u00a0edge\u00a0", "\u00a0"}
 var allStarts = []int64{1000, 0, 1, 999, 1500, 59999, 60000, 3599999, 3600000, 35999999, 36000000, 86399999, 359998000}
 
 const maxMs = 359999999
@@ -234,11 +234,11 @@ func representable(d srt.Doc) bool {
 			t := ""
 			for _, r := range l {
 				t += r.Text
-				if strings.TrimSpace(r.Text) == "" {
-					return false // white-space-only runs are not "text runs" in SubRip
+				if srt.TrimLine(r.Text) == "" {
+					return false // white-space-only runs are not "text runs" in SubRip (a no-break space is text)
 				}
 			}
-			if t != strings.TrimSpace(t) || strings.Contains(t, "-->") || strings.ContainsAny(t, "\r\n") {
+			if t != srt.TrimLine(t) || strings.Contains(t, "-->") || strings.ContainsAny(t, "\r\n") {
 				return false
 			}
 		}
@@ -338,6 +338,11 @@ func run(c *core.Ctx) {
 	// (1) core product: the full cartesian product of a tiny grammar
 	cp := coreProfile()
 	explore.Explore(-1, func(x *explore.C) { cs = gen(x, cp, true) }, visit("core"))
+	// (1b) three-run lines: every arrangement of 3 styles x 5 texts (incl. a run that is only a no-break
+	// space or only an escaped character between two styled runs) on one line
+	r3 := profile{ncues: []int{1}, starts: []int64{1000}, ends: []int{0}, nlines: []int{1}, nruns: []int{3},
+		styles: []srt.Style{{}, {I: true}, {B: true, Color: "red"}}, texts: []string{"x", "\u00a0", "&", "<", "a b"}}
+	explore.Explore(-1, func(x *explore.C) { cs = gen(x, r3, true) }, visit("runs3"))
 	// (2) deviation ball around the baseline document over all model and rendering choice points
 	explore.Explore(bound, func(x *explore.C) { cs = gen(x, full, false) }, visit("ball"))
 	c.ExtraMax["deviation_bound"] = float64(bound)
